@@ -166,10 +166,11 @@ static void feed(const unsigned char * d, int n) {
     if (ctx.buffer.position >= ctx.buffer.length) mc_viol("c01/position-not-inside-buffer", "after SCPI_Input: position %d, buffer length %d", (int) ctx.buffer.position, (int) ctx.buffer.length);
 }
 
-static void d1_case(const unsigned char * s, int n, size_t blen, char * ibuf) {
+static void d1_case(const unsigned char * s, int n, size_t blen, char * ibuf, int lite) {
     int r, k, i;
-    for (r = 0; r < NRES; r++) {
+    for (r = 0; r < (lite ? 1 : NRES); r++) {
         for (k = 0; k <= n; k++) {       /* k = 0: whole, 1..n-1: split at k, n: one byte per call */
+            if (lite && k != 0 && k != n && k != 2) continue;      /* longest strings: whole, one split, one byte per call; fresh context */
             if (n < 2 && k > 0) continue;
             if (k == n && n < 3) continue;
             fresh(ibuf, blen);
@@ -209,11 +210,11 @@ int main(int argc, char ** argv) {
         for (i = 0; i < len; i++) { idx[i] = 0; s[i] = S1[0]; }
         for (;;) {
             for (bl = 2; bl <= (size_t) len + 2; bl++) {
-                if (len == 5 && bl != 2 && bl != 4 && bl != 6 && bl != 7) continue;       /* length 5: four buffer sizes */
+                if (len == 5 && bl != 4 && bl != 6 && bl != 7) continue;       /* length 5: three buffer sizes */
                 if (!MC_CASE()) continue;
                 mc_case_tag = "D1-stream"; mc_case_s[0] = s; mc_case_n[0] = (size_t) len; mc_case_i[0] = (long long) bl;
                 h0 = n_handler; t0 = n_tokens;
-                d1_case(s, len, bl, ibufs[bl]);
+                d1_case(s, len, bl, ibufs[bl], len >= 5);
                 if (n_handler != h0 || n_tokens != t0) n_nontrivial++;
                 if (bl == (size_t) len + 2) {       /* D3: complete NUL-terminated line straight to the line parser */
                     char * line = (char *) malloc((size_t) len + 1);
